@@ -1,7 +1,7 @@
 (* Props/C01.v — property C01: rolling moments and weighted averages equal from-scratch window
    evaluation.  Carrier XR = option R (exact reals + one absorbing NaN), every series, every window
    w >= 1, every min_periods, every position, both driver bodies.  Statements only.            *)
-From Coq Require Import Reals List.
+From Coq Require Import Reals Lra List.
 From Tevec Require Import Base.Prelude Base.Num Base.XR Spec.Stats Model.Driver Model.Features
      Model.Fdiff Proofs.Features Proofs.Fdiff Proofs.Fdiff2 Proofs.Features2.
 Import ListNotations.
@@ -432,6 +432,63 @@ Theorem C01_zero_variance_outputs :
         (mp_eff mp w 4 <= length V -> nth_error okurt i = Some (Some 0%R)).
 Proof. exact zero_variance_outputs. Qed.
 
+(* ---------------------------------------------------------------------------------------------
+   (13) the exponentially weighted mean is null exactly on windows without a valid element: the
+        denominator of (4) vanishes iff n = 0, so (4) reads "weighted average, null iff empty"   *)
+Theorem C01_ewm_denominator_zero_iff :
+  forall (w n : nat), 1 <= w -> n <= w -> ((1 - (1 - 2 / INR w) ^ n)%R = 0%R <-> n = 0).
+Proof. exact ewm_denominator_zero_iff. Qed.
+
+Theorem C01_ts_vewm_total :
+  forall (w : nat) (mp : option nat) (body : bool) (xs : list XR), 1 <= w ->
+    exists out, ts_run (ts_vewm_f w mp) body w xs = Done out /\ length out = length xs /\
+      forall i, i < length xs ->
+        nth_error out i =
+        Some (let V := valid (win w i xs) in
+              if mp_eff mp w 0 <=? length V
+              then (if length V =? 0 then None else Some (ewmR (1 - 2 / INR w) V))
+              else None).
+Proof. exact ts_vewm_total. Qed.
+
+(* (14) window = 0 is rejected by both fractional differences, for every carrier: this is why the
+        theorems above ask 1 <= w *)
+Theorem C01_fdiff_window0 :
+  forall (A : Type) (NA : Num A) (T : Type) (DT : IsNone T A) (d : A) (cast : T -> A)
+         (mp : option nat) (xs : list T),
+    ts_fdiff false d 0 cast xs = Panicked Underflow /\
+    ts_vfdiff false d 0 mp xs = Panicked Underflow /\
+    (xs <> [] -> ts_fdiff true d 0 cast xs = Panicked AssertFail /\
+                 ts_vfdiff true d 0 mp xs = Panicked AssertFail).
+Proof. exact (@fdiff_window0). Qed.
+
+(* ---------------------------------------------------------------------------------------------
+   (15) the weights in the form of the fractional-differencing literature, and the repository's
+        own unit-test vectors (rolling.rs test_fdiff_coef, test_fdiff) exactly                   *)
+Theorem C01_fdiff_weight_recurrence :
+  forall (d : R) (k : nat),
+    fdiff_weight d 0 = 1%R /\
+    (fdiff_weight d (S k) = - fdiff_weight d k * ((d - INR k) / INR (S k)))%R.
+Proof. intros d k. split; [apply fdiff_weight_0|apply fdiff_weight_S]. Qed.
+
+Theorem C01_fdiff_weight_negative :
+  forall (d : R) (k : nat), (0 < d < 1)%R -> 1 <= k -> (fdiff_weight d k < 0)%R.
+Proof. exact fdiff_weight_negative. Qed.
+
+Theorem C01_fdiff_weight_decreasing :
+  forall (d : R) (k : nat), (0 < d < 1)%R -> 1 <= k -> (fdiff_weight d k < fdiff_weight d (S k))%R.
+Proof. exact fdiff_weight_decreasing. Qed.
+
+Theorem C01_fdiff_coef_unit_test_vector :
+  fdiff_coef (Some (/ 2)%R) 4 = [Some (- / 16)%R; Some (- / 8)%R; Some (- / 2)%R; Some 1%R].
+Proof. exact fdiff_coef_half_4. Qed.
+
+Theorem C01_ts_vfdiff_unit_test_vector :
+  forall body : bool,
+    exists out, ts_vfdiff (DT := IsNoneXR) body (Some (/ 2)%R) 4 None
+                  (map Some [7; 4; 2; 5; 1; 2]%R) = Done out /\
+      out = [None; Some (/ 2)%R; Some (- (7 / 8))%R; Some (49 / 16)%R; Some (- 2)%R; Some (3 / 4)%R].
+Proof. exact test_fdiff_vector. Qed.
+
 (* non-vacuity: a window with a null, warm-up and expiry *)
 Example C01_example_mean :
   exists out, ts_run (ts_vmean_f (A := XR) 2 (Some 1)) false 2 [Some 1%R; None; Some 3%R] = Done out
@@ -482,6 +539,9 @@ Proof.
   split; [apply Rlt_irrefl || (intros K; apply (Rlt_asym _ _ H); exact K)|apply Rlt_le; exact H].
 Qed.
 
+Example C01_example_fractional_order : (0 < / 2 < 1)%R /\ 1 <= 3.
+Proof. split; [lra|auto]. Qed.
+
 Print Assumptions C01_state_tracks_window.
 Print Assumptions C01_ts_vsum.
 Print Assumptions C01_ts_vmean.
@@ -524,3 +584,11 @@ Print Assumptions C01_eps_floor_bounded_std.
 Print Assumptions C01_floor_guards_agree.
 Print Assumptions C01_popvar_constant.
 Print Assumptions C01_zero_variance_outputs.
+Print Assumptions C01_ewm_denominator_zero_iff.
+Print Assumptions C01_ts_vewm_total.
+Print Assumptions C01_fdiff_window0.
+Print Assumptions C01_fdiff_weight_recurrence.
+Print Assumptions C01_fdiff_weight_negative.
+Print Assumptions C01_fdiff_weight_decreasing.
+Print Assumptions C01_fdiff_coef_unit_test_vector.
+Print Assumptions C01_ts_vfdiff_unit_test_vector.
